@@ -14,6 +14,7 @@ def run(edits, modules, genfiles):
     for ed in edits:
         label, fname, old, new = ed[:4]
         cnt = -1 if len(ed) > 4 and ed[4] == 'all' else 1
+        subprocess.run(['python3', ROOT + '/tools/py2lean.py', '--repo', '/repo', '--out', GEN], capture_output=True)
         shutil.rmtree(SRC + '/eqsig', ignore_errors=True)
         shutil.copytree('/repo/eqsig', SRC + '/eqsig')
         p = os.path.join(SRC, 'eqsig', fname)
